@@ -30,7 +30,8 @@ type FakeChain struct {
 	cfABI     *abi.ABI
 	implABI   *abi.ABI
 	Calls     int
-	FailCalls int // the next FailCalls eth_calls are refused by the node (a transient RPC failure)
+	FailCalls int // the next FailCalls eth_calls are refused by the node (a transient RPC failure) …
+	FailSkip  int // … after letting this many pass
 	// CallGate, when set, is consulted before every eth_call is answered (to hold an answer back)
 	CallGate func(to common.Address, method string)
 	// transactions (chaintx.go)
@@ -102,7 +103,9 @@ func (c *FakeChain) CallContract(ctx context.Context, msg ethereum.CallMsg, bloc
 	c.mu.Lock()
 	c.Calls++
 	gate := c.CallGate
-	if c.FailCalls > 0 {
+	if c.FailCalls > 0 && c.FailSkip > 0 {
+		c.FailSkip--
+	} else if c.FailCalls > 0 {
 		c.FailCalls--
 		c.mu.Unlock()
 		return nil, errors.New("fake chain: the node refused the call")
@@ -158,7 +161,14 @@ func (c *FakeChain) CallContract(ctx context.Context, msg ethereum.CallMsg, bloc
 
 func (c *FakeChain) SetFailCalls(n int) {
 	c.mu.Lock()
-	c.FailCalls = n
+	c.FailCalls, c.FailSkip = n, 0
+	c.mu.Unlock()
+}
+
+// SetFailAfter: let `skip` calls pass, then refuse `n`.
+func (c *FakeChain) SetFailAfter(skip, n int) {
+	c.mu.Lock()
+	c.FailCalls, c.FailSkip = n, skip
 	c.mu.Unlock()
 }
 
